@@ -1066,6 +1066,8 @@ class LegCharge:
 
     def is_bunched(self):
         """Checks whether :meth:`bunch` would change something."""
+        if self.block_number == 0:
+            return True  # nothing to bunch for a leg without any block
         return len(_find_row_differences(self.charges)) == self.block_number + 1
 
     def test_contractible(self, other):
